@@ -444,8 +444,9 @@ func c11One(env *fw.Env, cs c11Case) {
 		env.Event("cut_cases", 1)
 	case "stall-t6", "stall-t7":
 		// the peer simply does nothing: the select never completes; the timer must drop the link
-		if !waitFor(10*time.Second, func() bool { return rawReadEOF(pc) }) {
-			fail("stall-not-dropped-"+cs.Kind, "the peer stayed silent for 10 s (timer 150 ms) and the library kept the TCP connection")
+		// (every OTHER timer of this rig is 5 s or more: 4 s also tells the right timer from a wrong one)
+		if !waitFor(4*time.Second, func() bool { return rawReadEOF(pc) }) {
+			fail("stall-not-dropped-"+cs.Kind, "the peer stayed silent for 4 s (the timer that covers this stall is 150 ms, all others are >= 5 s) and the library kept the TCP connection")
 			return
 		}
 		env.Event("stall_cases", 1)
@@ -458,8 +459,8 @@ func c11One(env *fw.Env, cs c11Case) {
 			k = 7
 		}
 		_, _ = pc.C.Write(full[:k])
-		if !waitFor(10*time.Second, func() bool { return rawReadEOF(pc) }) {
-			fail("stall-not-dropped-t8", fmt.Sprintf("a frame stalled after %d bytes for 10 s (T8 150 ms) and the library kept the TCP connection", k))
+		if !waitFor(4*time.Second, func() bool { return rawReadEOF(pc) }) {
+			fail("stall-not-dropped-t8", fmt.Sprintf("a frame stalled after %d bytes for 4 s (T8 150 ms, all other timers >= 5 s) and the library kept the TCP connection", k))
 			return
 		}
 		env.Event("stall_cases", 1)
